@@ -177,6 +177,91 @@ def stage_longrun_program(ctx, dis):
         shutil.rmtree(tmp, ignore_errors=True)
 
 
+def stage_longrun_api(ctx, dis):
+    """API level: one DynamicRFKickMap built for `steps` steps by main()'s constructor calls (harness/impl_dynq.cpp), applied
+    `applies` <= steps times with getPastModulation() at random distances.  Oracles (the statement of
+    C19_dynqueue_entry_k_is_consumed_by_apply_k evaluated on the implementation): queue length after construction = steps;
+    queue length after j applies = steps - j (never refilled); every flush returns exactly the records since the last one;
+    record k = (syncphase + A sin(dphi k), 1) with the index k itself - evaluated with the object's own binary32 members
+    (A = _modampl, dphi = _modtimedelta) in emulated binary32, tolerance 4*2^-24*(|syncphase| + |A|): two roundings of the sum,
+    one of the product, libm's sine within one unit in the last place."""
+    import dynrf_cases as dc
+    rng = ctx.rng
+    tg = ctx.build(harness=("impl_dynq",), want_binary=False)
+    plans = [(2 ** 16 + rng.randrange(2, 64), None), (2 ** 17 + rng.randrange(2, 64), None)]
+    if not ctx.quick():
+        plans += [(2 ** 18 + rng.randrange(2, 999), None), (2 ** 16, None), (2 ** 16 + 1, None)]
+    for pi, (steps, _) in enumerate(plans):
+        lin = (pi + ctx.seed) % 2 == 0
+        c = dc.gen_rf(rng, "q%d" % pi, lin=lin, zero=False, noise=False, small=True)
+        c.n, c.nb, c.it = 8, 1, rng.choice([1, 2, 3, 4])
+        c.phasespread = c.amplspread = 0.0
+        c.modampl = _f32(rng.uniform(0.01, 0.05))
+        c.modinc = rng.choice([0.37e-3, 0.61e-3, 1.3e-3])
+        c.steps = steps
+        applies = steps if rng.random() < 0.5 else steps - rng.randrange(0, 3)
+        fl, j = [], 0
+        while True:
+            j += rng.choice([1, 2, 777, 4096, 30011, 65535, 65536, 65537])
+            if j >= applies:
+                break
+            fl.append(j)
+        text = "longq %s %s %d %d %s\n" % (c.cid, c.args(), applies, len(fl), " ".join(str(x) for x in fl))
+        rc, out, err = run_driver(tg["impl_dynq"], text, timeout=600)
+        case = dict(kind="longrun-api", rf=c.describe(), steps=steps, applies=applies, flush_at=fl)
+        md = "linear" if lin else "sinusoidal"
+        if rc != 0:
+            ctx.violation("impl-oracle", "impl_dynq failed (rc=%d)" % rc, case=case, observed=err[-400:], sig=dict(kind="longrun-api", clause="run", model=md))
+            continue
+        mem, qlen0, flushes, rec = None, None, [], None
+        for line in out.splitlines():
+            p = line.split()
+            if not p:
+                continue
+            if p[0] == "members":
+                mem = [float.fromhex(x) for x in p[1:]]
+            elif p[0] == "qlen0":
+                qlen0 = int(p[1])
+            elif p[0] == "flush":
+                flushes.append(tuple(int(x) for x in p[1:]))
+            elif p[0] == "rec":
+                rec = p[1:]
+        ctx.count("longrun-api:%s" % (">2^17" if steps > 2 ** 17 else (">2^16" if steps > 2 ** 16 else "<=2^16")))
+        ctx.case_done(("longrun-api", pi), applies > 2 ** 16)
+        if qlen0 != steps:
+            ctx.violation("impl-oracle", "the queue built by the constructor for steps=%d holds %s entries" % (steps, qlen0), case=case,
+                          observed=qlen0, expected=steps, sig=dict(kind="longrun-api", clause="queue-length", model=md))
+            continue
+        last = 0
+        badf = None
+        for (j, ql, chunk) in flushes:
+            if ql != steps - j or chunk != j - last:
+                badf = (j, ql, chunk, last)
+                break
+            last = j
+        if badf is not None:
+            j, ql, chunk, last = badf
+            ctx.violation("impl-oracle", "after %d applies (steps=%d) the queue holds %d entries (expected %d: it is never refilled) and the flush returned %d records (expected %d)" % (
+                          j, steps, ql, steps - j, chunk, j - last), case=case, observed=dict(queue=ql, chunk=chunk), expected=dict(queue=steps - j, chunk=j - last),
+                          sig=dict(kind="longrun-api", clause="queue-length", model=md))
+            continue
+        if rec is None or len(rec) != 2 * applies:
+            ctx.violation("impl-oracle", "%s records for %d applies" % (None if rec is None else len(rec) // 2, applies), case=case,
+                          observed=None if rec is None else len(rec) // 2, expected=applies, sig=dict(kind="longrun-api", clause="row-count", model=md))
+            continue
+        sync, A, dphi = mem
+        tol = 4.0 / 2 ** 24 * (abs(sync) + abs(A)) + 1e-38
+        for k in range(applies):
+            e = _f32(_f32(sync) + _f32(A * _f32(math.sin(_f32(dphi * k)))))
+            ph, am = float.fromhex(rec[2 * k]), float.fromhex(rec[2 * k + 1])
+            if not (abs(ph - e) <= tol) or am != 1.0:
+                ctx.violation("impl-oracle", "record %d of %d is not (syncphase + A sin(dphi k), 1) with the index k itself (steps=%d)" % (k, applies, steps), case=case,
+                              observed=dict(k=k, phase=rec[2 * k], amplitude=rec[2 * k + 1]), expected=dict(phase=e, amplitude=1, tol=tol, syncphase=sync, A=A, dphi=dphi),
+                              sig=dict(kind="longrun-api", clause="sinusoidal", model=md))
+                break
+
+
 def run_all(ctx, dis, coq):
     stage_layout(ctx, dis)
     stage_longrun_program(ctx, dis)
+    stage_longrun_api(ctx, dis)
